@@ -225,11 +225,11 @@ theorem dropFrame_ok {r : M (Sw × Frame × List Out)} {sw' : Sw} {outs : List O
 /-- **receive guards and receive counters**: a frame from the wire is either refused — the switch does not change and
 nothing at all comes out — or accepted: then the receive counters of its port move by one frame and its wire length, and
 whatever is emitted obeys the transmit contract -/
-theorem rxWire_sound (var : Variant) (hv : var.d8 = false) (sw : Sw) (f : Frame) (inPort : Nat) (wire : Bytes) (sw' : Sw)
-    (outs : List Out) (h : rxWire var sw f inPort wire = .ok (sw', outs)) :
+theorem rxWireCore_sound (var : Variant) (hv : var.d8 = false) (sw : Sw) (f : Frame) (inPort : Nat) (wire : Bytes) (sw' : Sw)
+    (outs : List Out) (h : rxWireCore var sw f inPort wire = .ok (sw', outs)) :
     (accepts sw f inPort = false → sw' = sw ∧ outs = []) ∧
     (accepts sw f inPort = true → Sound (bumpRx sw inPort wire.length) sw' outs) := by
-  unfold rxWire at h
+  unfold rxWireCore at h
   obtain ⟨f', h⟩ := dropFrame_ok h
   unfold rxThen at h
   unfold accepts
@@ -250,11 +250,11 @@ theorem rxWire_sound (var : Variant) (hv : var.d8 = false) (sw : Sw) (f : Frame)
 
 /-- the same for a packet object handed to `rx_packet` without wire bytes: the byte counter moves by the length of its
 serialisation -/
-theorem rxObj_sound (var : Variant) (hv : var.d8 = false) (sw : Sw) (f : Frame) (inPort : Nat) (sw' : Sw)
-    (outs : List Out) (h : rxObj var sw f inPort = .ok (sw', outs)) :
+theorem rxObjCore_sound (var : Variant) (hv : var.d8 = false) (sw : Sw) (f : Frame) (inPort : Nat) (sw' : Sw)
+    (outs : List Out) (h : rxObjCore var sw f inPort = .ok (sw', outs)) :
     (accepts sw f inPort = false → sw' = sw ∧ outs = []) ∧
     (accepts sw f inPort = true → ∃ b, packFrame f = .ok b ∧ Sound (bumpRx sw inPort b.length) sw' outs) := by
-  unfold rxObj at h
+  unfold rxObjCore at h
   obtain ⟨f', h⟩ := dropFrame_ok h
   unfold rxThen at h
   unfold accepts
@@ -277,6 +277,51 @@ theorem rxObj_sound (var : Variant) (hv : var.d8 = false) (sw : Sw) (f : Frame) 
     · simp only [ha, Bool.not_false, if_true, Except.ok.injEq, Prod.mk.injEq] at h
       obtain ⟨rfl, _, rfl⟩ := h
       simp [ha]
+
+/-- what holds of an accepted frame's result once the buffers are settled: the counters moved from `st0` by the frames of
+the log, the port table is the old one, every frame left through a port that is up -/
+structure Sound' (sw : Sw) (st0 : List Stat) (sw' : Sw) (outs : List Out) : Prop where
+  stats : sw'.stats = tally st0 outs
+  ports : sw'.ports = sw.ports
+  table : sw'.table = sw.table
+  guard : ∀ p b, Out.frame p b ∈ outs → up sw.ports p = true
+
+theorem Sound'.of_finish {sw0 sw sw1 : Sw} {o1 : List Out} (n : Nat) (hp : sw0.ports = sw.ports) (ht : sw0.table = sw.table)
+    (h : Sound sw0 sw1 o1) : Sound' sw sw0.stats { sw1 with bufFree := (settle n o1).1 } (settle n o1).2 := by
+  obtain ⟨hs, hg⟩ := h
+  subst hs
+  refine ⟨by simp [tally_settle], hp, ht, ?_⟩
+  intro p b hm
+  rw [← hp]
+  exact hg p b ((settle_frames p b o1 n).mp hm)
+
+theorem rxWire_sound (var : Variant) (hv : var.d8 = false) (sw : Sw) (f : Frame) (inPort : Nat) (wire : Bytes) (sw' : Sw)
+    (outs : List Out) (h : rxWire var sw f inPort wire = .ok (sw', outs)) :
+    (accepts sw f inPort = false → sw' = sw ∧ outs = []) ∧
+    (accepts sw f inPort = true → Sound' sw (bumpRx sw inPort wire.length).stats sw' outs) := by
+  obtain ⟨sw1, o1, hc, rfl, rfl⟩ := finish_ok h
+  obtain ⟨h1, h2⟩ := rxWireCore_sound var hv sw f inPort wire sw1 o1 hc
+  refine ⟨fun ha => ?_, fun ha => Sound'.of_finish _ rfl rfl (h2 ha)⟩
+  obtain ⟨rfl, rfl⟩ := h1 ha
+  exact ⟨rfl, rfl⟩
+
+theorem rxObj_sound (var : Variant) (hv : var.d8 = false) (sw : Sw) (f : Frame) (inPort : Nat) (sw' : Sw)
+    (outs : List Out) (h : rxObj var sw f inPort = .ok (sw', outs)) :
+    (accepts sw f inPort = false → sw' = sw ∧ outs = []) ∧
+    (accepts sw f inPort = true → ∃ b, packFrame f = .ok b ∧ Sound' sw (bumpRx sw inPort b.length).stats sw' outs) := by
+  obtain ⟨sw1, o1, hc, rfl, rfl⟩ := finish_ok h
+  obtain ⟨h1, h2⟩ := rxObjCore_sound var hv sw f inPort sw1 o1 hc
+  refine ⟨fun ha => ?_, fun ha => ?_⟩
+  · obtain ⟨rfl, rfl⟩ := h1 ha
+    exact ⟨rfl, rfl⟩
+  · obtain ⟨b, hb, hs⟩ := h2 ha
+    exact ⟨b, hb, Sound'.of_finish _ rfl rfl hs⟩
+
+theorem packetOut_sound (var : Variant) (hv : var.d8 = false) (sw : Sw) (acts : List Action) (f : Frame) (inPort : Nat)
+    (sw' : Sw) (outs : List Out) (h : packetOut var sw acts f inPort = .ok (sw', outs)) : Sound' sw sw.stats sw' outs := by
+  obtain ⟨sw1, o1, hc, rfl, rfl⟩ := finish_ok h
+  obtain ⟨f', hc⟩ := dropFrame_ok hc
+  exact Sound'.of_finish _ rfl rfl (run_sound var hv _ _ _ _ _ _ _ _ hc)
 
 /-- nothing is accepted from a receive-disabled port (802.1D frames excepted), from a NO_RECV_STP port nothing that is
 802.1D, from a port that does not exist nothing at all -/
@@ -351,15 +396,13 @@ theorem step_counters (var : Variant) (hv : var.d8 = false) (sw : Sw) (op : Op) 
     obtain ⟨rfl, rfl⟩ := h
     simp [countStep]
   | packetOut acts f inPort =>
-    simp only [step, packetOut] at h
-    obtain ⟨f', h⟩ := dropFrame_ok h
-    have := (run_sound var hv _ _ _ _ _ _ _ _ h).state
-    simp [countStep, this]
+    simp only [step] at h
+    simp [countStep, (packetOut_sound var hv sw acts f inPort sw' outs h).stats]
   | rx f inPort wire =>
     simp only [step] at h
     obtain ⟨h1, h2⟩ := rxWire_sound var hv sw f inPort wire sw' outs h
     cases ha : accepts sw f inPort with
-    | true => simp [countStep, ha, (h2 ha).state]
+    | true => simp [countStep, ha, (h2 ha).stats]
     | false => obtain ⟨rfl, rfl⟩ := h1 ha; simp [countStep, ha]
   | rxObj f inPort =>
     simp only [step] at h
@@ -367,7 +410,7 @@ theorem step_counters (var : Variant) (hv : var.d8 = false) (sw : Sw) (op : Op) 
     cases ha : accepts sw f inPort with
     | true =>
       obtain ⟨b, hb, hs⟩ := h2 ha
-      simp [countStep, ha, hb, hs.state]
+      simp [countStep, ha, hb, hs.stats]
     | false => obtain ⟨rfl, rfl⟩ := h1 ha; simp [countStep, ha]
 
 /-- the statistics a history must end with, replayed from its observable log -/
